@@ -230,10 +230,13 @@ def report(res: RunResult, explanation: str, assumptions: list[str], out=None, w
     if write_evidence:
         write_evidence_file(res, explanation, assumptions, held, viol, listed, unlisted, extra_cov or {})
 
-    if res.errors:
-        return 2
+    # a reported construct wins over an analysis error elsewhere in the same run: the change is detected
+    # and named; the error (typically an instance floor missed because a rule stopped at the violation)
+    # is still printed
     if unlisted:
         return 1
+    if res.errors:
+        return 2
     return 0
 
 
